@@ -1,7 +1,47 @@
-(** Cycle-level correspondence and monitor entry points for C02 (see Run/Cycle.v). *)
-From KaiV Require Export Run.Cycle.
-Definition model_agrees := cycle_agrees.
-Definition monitor_ok := c02_ok.
-Definition run_mismatches (cs : list (nat * ccase)) : list nat := failing (fun k => negb (model_agrees k)) cs.
-Definition run_monitor (cs : list (nat * ccase)) : list nat := failing (fun k => negb (monitor_ok k)) cs.
-Definition run_flags := cycle_run_flags.
+(** C02: cycle-level monitor (Run/Cycle.v) + function-level correspondence for
+    the choice of GPU groups (Model/GpuSharing.v). *)
+From KaiV Require Export Run.Cycle Model.GpuSharing.
+Open Scope Z_scope.
+
+Record dcase := mkD {
+  d_node : node;                       (* the real node before the decision *)
+  d_task : task;
+  d_pipeline_only : bool;
+  d_cands : list (option positive);    (* candidate list handed to the real function, in its order *)
+  d_fresh : list positive;             (* names standing for the fresh groups, in creation order *)
+  d_obs : option (list positive * bool);   (* observed: chosen groups, IsReleasing *)
+}.
+
+Inductive c02case := PCycle (k : ccase) | PDecision (d : dcase).
+
+Definition decision_eqb (a b : option (list positive * bool)) : bool :=
+  match a, b with
+  | None, None => true
+  | Some (g1, r1), Some (g2, r2) => list_eqb Pos.eqb g1 g2 && Bool.eqb r1 r2
+  | _, _ => false
+  end.
+
+Definition decision_agrees (d : dcase) : bool :=
+  decision_eqb (prefer (d_node d) (d_task d) (d_pipeline_only d) (d_cands d) (d_fresh d)) (d_obs d).
+
+(** A decision that is not marked as releasing leads to Statement.Allocate and then to a Bind:
+    it must be safe for the devices. Flag 2: the unsafe decision is one where fresh devices were
+    taken although fewer are idle (known finding C02-multidevice-fresh-groups). *)
+Definition decision_monitor (d : dcase) : bool :=
+  match d_obs d with
+  | Some (gs, false) =>
+      nodup_posb gs && (Z.of_nat (List.length gs) =? t_ndev (d_task d))
+      && decision_safe (d_node d) (d_task d) gs
+  | Some (gs, true) => nodup_posb gs && (Z.of_nat (List.length gs) =? t_ndev (d_task d))
+  | None => true
+  end.
+
+Definition model_agrees (c : c02case) : bool :=
+  match c with PCycle k => cycle_agrees k | PDecision d => decision_agrees d end.
+Definition monitor_ok (c : c02case) : bool :=
+  match c with PCycle k => c02_ok k | PDecision d => decision_monitor d end.
+Definition run_mismatches (cs : list (nat * c02case)) : list nat := failing (fun k => negb (model_agrees k)) cs.
+Definition run_monitor (cs : list (nat * c02case)) : list nat := failing (fun k => negb (monitor_ok k)) cs.
+Definition run_flags (cs : list (nat * c02case)) : list (nat * list nat) :=
+  filter (fun p => negb (Nat.eqb (List.length (snd p)) 0))
+         (map (fun c => (fst c, match snd c with PCycle k => cycle_flags k | PDecision _ => [] end)) cs).
